@@ -1,4 +1,5 @@
 import FstVerif.Proofs.Merge
+import FstVerif.Proofs.Lines
 import FstVerif.Proofs.Glue
 import FstVerif.Proofs.Sched
 /-
@@ -91,5 +92,28 @@ theorem C19_line_key (c : Key) :
 /-- a file listed twice is read twice -/
 theorem C19_file_twice (b : Bool) (f : List (Key × Nat) × Bool) :
     fileRows b [f, f] = fileRows b [f] ++ fileRows b [f] := Glue.fileRows_twice b f
+
+
+/-! ### from the BYTES of the input files to the rows (Model/Lines.lean: bstr's `byte_lines`) -/
+
+/-- reading back a file written line by line: every row comes back as `lineKey` says, provided no
+row contains a line feed and the file does not end in an EMPTY unterminated row (which leaves no
+byte behind: `Lines.byteLines_render_empty_last`) -/
+theorem C19_bytes_to_rows (rows : List Key) (lastTerminated : Bool) (hnl : ∀ r ∈ rows, (10 : UInt8) ∉ r)
+    (hlast : lastTerminated = true ∨ rows.getLast? ≠ some []) :
+    byteLines (renderLines rows lastTerminated) =
+      rows.zipIdx.map (fun (c, i) => lineKey c (lastTerminated || i + 1 != rows.length)) :=
+  Lines.byteLines_render rows lastTerminated hnl hlast
+
+/-- one reader per file: lines never span files; and what chaining the readers would do instead -/
+theorem C19_files_to_rows (files : List (List (Key × Nat) × Bool)) (h : ∀ f ∈ files, Lines.Renderable f) :
+    concatFilesLines (files.map fun (rows, t) => renderLines (rows.map (·.1)) t) = (fileRows true files).map (·.1) :=
+  Lines.concatFilesLines_render files h
+
+example : byteLines ([97] ++ [98, 10]) = [[97, 98]] ∧ concatFilesLines [[97], [98, 10]] = [[97], [98]] := by decide
+
+/-- a line is never split, whatever its length -/
+theorem C19_long_line (n : Nat) : byteLines (List.replicate n 76 ++ [10]) = [List.replicate n 76] :=
+  Lines.byteLines_long_line n
 
 end Fst.Props
